@@ -714,6 +714,11 @@ func newIssueSUT() *issueSUT {
 	h := &caHolder{}
 	s := &issueSUT{keys: newKeyring(), fix: newCAFixtures(), holder: h}
 	s.worlds = &worlds{holder: h, cache: map[string]*world{}, stop: make(chan struct{})}
+	// a placeholder CA so that a Server can be constructed before the first `ca` line (requests are
+	// answered `no-ca` until a `ca` line succeeds)
+	if c, err := s.fix.buildCA("nosigner", 0, 3600, 3600); err == nil {
+		h.cur = c
+	}
 	return s
 }
 
